@@ -43,7 +43,11 @@ LEVEL_TEXT = ("Machine-checked Coq theorems over an executable two-layer model: 
               "plain-list result for the list's original content. Round 5: == on cell values is only assumed to be an equivalence (1 == 1.0 == "
               "True are different values); all theorems hold under that weaker hypothesis, distinct is proved to keep the first member of each "
               "class ITSELF (spec_firsts), and the correspondence runs on coded values (int / float / bool of the same number) with "
-              "type-sensitive comparison of every listing, collect and row.")
+              "type-sensitive comparison of every listing, collect and row. Round 7: the row container of an initial frame may be a TUPLE of rows "
+              "(an eager sequence that is not a list; third kind of _rows in the object-level model): proved for every state and every operator that "
+              "looks at the rows that the call yields the plain-list operator on its rows and leaves the frame list-backed (materialize), real "
+              "DataFrame(rows=tuple(...)) objects are run through every operator, window-then-collect, + in both orders with list / generator / "
+              "tuple backings, and append.")
 LEVEL_NOTE = ("Trusted: Coq kernel + vm_compute; the hand-written code model (validated, not verified, against CPython generator / list() / slice "
               "semantics and the shipped compiled collector by the correspondence run); in the step-language model (stream prog, theorem "
               "C03_programs) a derived lazy frame is listed at once; deferred forcing is covered by the object-level model (stream heap), whose "
@@ -68,7 +72,9 @@ RULE = ("random frames (0..12 rows x 0..4 columns of ints in -2..3, names-only o
         "listed when made, every frame listed once at the end; exhaustive: source backing x derived frame x observation(s) before first listing; "
         "sessions with caller-owned lists: 600 random programs in which 45% of the calls are handed one of 3-4 pool objects (reordered column "
         "subsets, sometimes with positions, a mask, an index list) and 8% append a row; exhaustive: one column list x pairs/triples of "
-        "collect/indexing/select on two frames with different layouts and on the projection; every frame-returning operator x append to source/result")
+        "collect/indexing/select on two frames with different layouts and on the projection; every frame-returning operator x append to source/result; "
+        "round 7: initial frames backed by a tuple of rows (20% of the random object-level programs; exhaustive: 0/1/3-row tuple-backed frame x every "
+        "operator, x derived frame x operator needing a list, + over all backing pairs in both orders, append before/after materialize)")
 TRUSTED = [
     "C03 code model (coq/Model/C03.v, coq/Base/PySlice.v): modelled, not verified: CPython slice clamping, list.index, zip/enumerate over a "
     "generator, set membership of int tuples, range(), list(x) = iter + length hint + drain, numpy object-array shape of collect_cython",
@@ -631,6 +637,10 @@ def corpus():
     # F-C03-6 (fixed 75a1e72): filter / take of a generator-backed frame (or of a lazy intermediate) that is
     # materialised before the derived frame is first listed
     yield _hcase([_hframe("ab", H_ROWS, gen=True)], [(0, ["filter", [1, 1, 1]]), (0, ["len"])])
+    # round 7: the row container is a tuple - collect / indexing / + / windows need materialize() to have made it a list
+    yield _hcase([_hframe("ab", H_ROWS, tup=True), _hframe("ab", [[9, 0]])],
+                 [(0, ["collect1", "a", None]), (0, ["add", 1]), (1, ["add", 0]), (0, ["slice", 1, 2]), (4, ["collect1", 0, None]), (0, ["batches", 2]), (6, ["getitem1", "b"])])
+    yield _hcase([_hframe("ab", H_ROWS, tup=True), _hframe("ab", [[9, 0]])], [(1, ["add", 0]), (0, ["tail", 2]), (3, ["add", 1])])
     yield _hcase([_hframe("ab", H_ROWS, gen=True)], [(0, ["take", [0, 1, 2]]), (0, ["rowcount"]), (1, ["list"])])
     yield _hcase([_hframe("ab", H_ROWS)], [(0, ["select", ["a", "b"]]), (1, ["filter", [1, 0, 1]]), (1, ["take", [2, 0]]), (1, ["head", 9]),
                                             (2, ["list"]), (3, ["len"])])
@@ -659,6 +669,52 @@ def _window_cases(nmax):
                     yield _one(fr, ["slice", k, ln], lz)
 
 
+def _tuple_cases(tier):
+    """round 7: the row container handed to DataFrame(rows=...) is a TUPLE (an eager sequence that is not a list).  Every operator
+    directly on such a frame; every window / batch / copy of it followed by collect, indexing, row, + ; + with a list-, generator- and
+    tuple-backed frame in either order (and with itself); append() before and after the frame was materialised; zero rows (an empty tuple
+    is replaced by a list in the constructor) and one row"""
+    for rows in ([], [[1, 2]], H_ROWS):
+        n = len(rows)
+        T = lambda typed=False, share=None: _hframe("ab", rows, tup=True, typed=typed, share=share)  # noqa: E731
+        direct = [["len"], ["rowcount"], ["mat"], ["list"], ["iter"], ["head", 2], ["tail", 2], ["slice", 1, None], ["slice", -2, 1], ["slice", 0, 0],
+                  ["query", ["true"]], ["distinct"], ["batches", 2], ["batches", 3], ["collect", ["b", "a"], None], ["collect", ["a"], 2], ["collect", [1], 0],
+                  ["collect1", "a", None], ["collect1", 0, 1], ["getitem", ["b", "a"]], ["getitem1", "b"], ["row", 0], ["row", -1], ["row", n],
+                  ["select", ["b", "a"]], ["select1", "b"], ["filter", [1, 0, 1]], ["take", [2, 0]], ["add", 0], ["append", [7, 8]]]
+        for op in direct:
+            yield _hcase([T()], [(0, op)])
+            if tier != "quick" or n == 3:
+                yield _hcase([T(typed=True)], [(0, op)])
+        # a derived frame of the tuple-backed one, then something that needs a list
+        derive = [["head", 2], ["tail", 2], ["slice", 1, 2], ["slice", 0, None], ["batches", 2], ["query", ["true"]], ["distinct"], ["select", ["b", "a"]],
+                  ["filter", [1, 1, 1]], ["take", [0, 1, 2]], ["add", 0]]
+        then = [["collect", ["a"], None], ["collect1", "b", 1], ["getitem1", "a"], ["row", 0], ["add", 0], ["add", 1], ["batches", 1], ["tail", 1], ["append", [7, 8]], ["len"]]
+        for dv in derive:
+            for th in then:
+                if dv[0] == "select" and th[0] in ("add", "collect1", "getitem1", "collect"):
+                    th = ["collect1", "a", None] if th[0] != "add" else ["add", 1]
+                yield _hcase([T()], [(0, dv), (1, th)])
+        # + : every pair of backings, both orders, sharing one schema object when typed; then the operands once more
+        kinds = [dict(), dict(gen=True), dict(tup=True)]
+        for ka in kinds:
+            for kb in kinds:
+                if not (ka.get("tup") or kb.get("tup")):
+                    continue
+                for typed in (False, True):
+                    A = _hframe("ab", rows, typed=typed, **ka)
+                    B = _hframe("ab", [[9, 0]], typed=typed, share=0 if typed else None, **kb)
+                    yield _hcase([A, B], [(0, ["add", 1]), (2, ["collect1", "a", None]), (1, ["add", 0]), (0, ["add", 0])])
+                    yield _hcase([A, B], [(1, ["add", 0]), (0, ["tail", 2]), (1, ["slice", 0, None]), (3, ["add", 4]), (4, ["add", 3])])
+        # append: refused while the container is a tuple, lands in this frame only once it is a list
+        yield _hcase([T()], [(0, ["append", [7, 8]]), (0, ["len"]), (0, ["append", [7, 8]]), (0, ["head", 9]), (1, ["append", [0, 0]])])
+        yield _hcase([T()], [(0, ["iter"]), (0, ["query", ["true"]]), (0, ["distinct"]), (0, ["append", [7, 8]]), (0, ["mat"]), (0, ["append", [7, 8]])])
+        # lazily backed children made while the container is a tuple, the source materialised before they are listed
+        yield _hcase([T()], [(0, ["select", ["b"]]), (0, ["filter", [1, 0, 1]]), (0, ["take", [1]]), (0, ["len"]), (0, ["append", [7, 8]])])
+        # the caller's lists handed to a tuple-backed frame
+        yield dict(_hcase([T(), _hframe("ba", [[5, 6]], tup=True)], [(0, ["collect", {"ref": 0}, None]), (1, ["getitem", {"ref": 0}]), (0, ["select", {"ref": 0}]),
+                                                                    (0, ["take", {"ref": 1}]), (0, ["collect", {"ref": 1}, 1])]), pool=[["b", "a"], [1, 0]])
+
+
 def _distinct_cases(tier):
     """every short sequence of rows over values that are equal but distinguishable, through distinct - on a list-backed frame, on
     a generator-backed copy, and (object level) followed by collect of the surviving values"""
@@ -676,14 +732,16 @@ def _distinct_cases(tier):
 
 def exhaustive(tier):
     nmax = 3 if tier == "quick" else 5
-    return itertools.chain(_window_cases(nmax), _deferred_cases(tier), _aliasing_cases(tier), _distinct_cases(tier)), (
+    return itertools.chain(_window_cases(nmax), _deferred_cases(tier), _aliasing_cases(tier), _distinct_cases(tier), _tuple_cases(tier)), (
         f"every head/tail/slice(offset)/slice(offset,length)/row/to_batches/collect-limit argument in -(n+2)..n+2 "
         f"on one-column frames of n = 0..{nmax} rows, list-backed and generator-backed; every combination of source backing "
         f"(list, generator, select/filter/take result) x derived frame (select, filter, take, head, distinct) x observation(s) of the "
         f"source or of a sibling made before the derived frame is first listed; one caller-owned column list (5 contents) handed to every "
         f"pair / triple of collect, indexing, select calls on two frames with different column layouts (and on the projection); every "
         f"frame-returning operator followed by append() to the source, the result or both; every sequence of 1..3 rows over the equal-but-"
-        f"distinguishable values 1 / 1.0 / True / 2 / 2.0 through distinct (list-backed, generator-backed, then collect / row of the survivors)")
+        f"distinguishable values 1 / 1.0 / True / 2 / 2.0 through distinct (list-backed, generator-backed, then collect / row of the survivors); "
+        f"frames whose row container is a tuple (0, 1, 3 rows): every operator directly, every window / batch / copy / projection followed by collect, "
+        f"indexing, row, +, to_batches, append; + over every pair of list / generator / tuple backings in both orders")
 
 
 def _rand_frame(rng, names=None):
@@ -827,6 +885,7 @@ def shrink(case):
 # included - are observed.  When the program ends every frame is listed once, in environment order
 # (so a source is listed before the frames derived from it).
 #   initial frame: as above plus "gen": True = DataFrame(rows=(r for r in rows), schema=...)
+#                  or (round 7) "tup": True = DataFrame(rows=tuple(rows), schema=...): the row container is a tuple
 #   ops: those above (["add", j] adds frame j itself) and ["list"] ["mat"] ["rowcount"]
 #   observation: {"steps": [["new", [names, ...]] | value | ["raise", cls], ...], "final": [[names, rows], ...]}
 # =============================================================================
@@ -842,7 +901,12 @@ def _observe_heap(case):
     env = []
     for f, sc in zip(case["frames"], schemas):
         rows = [tuple(r) for r in f["rows"]]
-        env.append(DataFrame(rows=(r for r in rows), schema=sc) if f.get("gen") else DataFrame(rows=rows, schema=sc))
+        if f.get("gen"):
+            env.append(DataFrame(rows=(r for r in rows), schema=sc))
+        elif f.get("tup"):
+            env.append(DataFrame(rows=tuple(rows), schema=sc))      # round 7: an eager sequence that is not a list
+        else:
+            env.append(DataFrame(rows=rows, schema=sc))
     steps = []
     pool = [_pool_object(v) for v in case.get("pool", [])]     # the caller's own list objects, handed over again and again
     args = []
@@ -1025,7 +1089,8 @@ def _oracle_heap(case, obs):
         D = env[d]
         op = st["op"]
         k = op[0]
-        where = (f"final listing of frame {d}" if final else f"step {t} {op} on frame {d}") + f" ({D.status}-backed)"
+        where = (f"final listing of frame {d}" if final else f"step {t} {op} on frame {d}") + (
+            f" ({D.status}-backed" + ("; built from a TUPLE of rows)" if d < len(fr) and fr[d].get("tup") else ")"))
         if final:
             if o[0] == "!raise":
                 return f"{where}: listing raised {o[1]}"
@@ -1201,6 +1266,10 @@ def _coq_can_follow(case, obs):
     return True
 
 
+def _ikind(f):
+    return "KGen" if f.get("gen") else "KTuple" if f.get("tup") else "KList"
+
+
 def _to_coq_args(case, obs):
     if not _coq_can_follow(case, obs):
         return None
@@ -1208,7 +1277,7 @@ def _to_coq_args(case, obs):
     fs = []
     for j, f in enumerate(fr):
         kind = "(Typed %s)" % L.nat(_schema_id(fr, j)) if f["typed"] else "Untyped"
-        fs.append("(mkHI (mkS %s %s) %s %s)" % (kind, _names(f["names"]), _rows(f["rows"]), L.boolean(bool(f.get("gen")))))
+        fs.append("(mkHI (mkS %s %s) %s %s)" % (kind, _names(f["names"]), _rows(f["rows"]), _ikind(f)))
     pool = [_argobj(v) for v in case.get("pool", [])]
     prog, seen = [], []
     for st, o, after in zip(case["hsteps"], obs["steps"], obs["args"]):
@@ -1235,7 +1304,7 @@ def _to_coq_heap(case, obs):
     fs = []
     for j, f in enumerate(fr):
         kind = "(Typed %s)" % L.nat(_schema_id(fr, j)) if f["typed"] else "Untyped"
-        fs.append("(mkHI (mkS %s %s) %s %s)" % (kind, _names(f["names"]), _rows(f["rows"]), L.boolean(bool(f.get("gen")))))
+        fs.append("(mkHI (mkS %s %s) %s %s)" % (kind, _names(f["names"]), _rows(f["rows"]), _ikind(f)))
     prog = ["(mkHStep %s %s)" % (L.nat(s["src"]), _coq_hop(s["op"])) for s in case["hsteps"]]
     seen = [_coq_hout(o) for o in obs["steps"]]
     for j, x in enumerate(obs["final"]):
@@ -1248,7 +1317,7 @@ def _to_coq_heap(case, obs):
 def _classify_heap(case, obs):
     yield "heap:steps=%d" % len(case["hsteps"])
     for f in case["frames"]:
-        yield "heap:initial:" + ("generator-backed" if f.get("gen") else "list-backed")
+        yield "heap:initial:" + ("generator-backed" if f.get("gen") else "tuple-backed" if f.get("tup") else "list-backed")
     nenv = len(case["frames"])
     lazy_at = {}      # env index of an unforced lazy result -> its source
     touched = set()   # sources observed since a lazy child of theirs was made
@@ -1306,10 +1375,15 @@ def _shrink_heap(case):
             yield dict(case, frames=case["frames"][:j] + [g] + case["frames"][j + 1:])
         if f["typed"]:
             yield dict(case, frames=case["frames"][:j] + [dict(f, typed=False)] + case["frames"][j + 1:])
+        if f.get("tup"):
+            yield dict(case, frames=case["frames"][:j] + [dict(f, tup=False)] + case["frames"][j + 1:])
 
 
-def _hframe(names, rows, gen=False, typed=False, share=None):
-    return dict(_frame(names, rows, typed, share), gen=gen)
+def _hframe(names, rows, gen=False, typed=False, share=None, tup=False):
+    f = dict(_frame(names, rows, typed, share), gen=gen)
+    if tup and not gen:
+        f["tup"] = True
+    return f
 
 
 def _hcase(frames, ops):
@@ -1328,6 +1402,8 @@ def _deferred_cases(tier):
         ("select-of-list", [_hframe("ab", H_ROWS)], [(0, ["select", ["a", "b"]])], 1),
         ("filter-of-list", [_hframe("ab", H_ROWS, typed=True)], [(0, ["filter", [1, 1, 1]])], 1),
         ("take-of-generator", [_hframe("ab", H_ROWS, gen=True)], [(0, ["take", [0, 1, 2]])], 1),
+        ("tuple", [_hframe("ab", H_ROWS, tup=True)], [], 0),
+        ("select-of-tuple", [_hframe("ab", H_ROWS, tup=True)], [(0, ["select", ["a", "b"]])], 1),
     ]
     children = [["select", ["b", "a"]], ["select1", "b"], ["filter", [1, 0, 1]], ["filter", [1]], ["take", [0, 2]], ["head", 2], ["distinct"]]
     between = [[], [["len"]], [["rowcount"]], [["mat"]], [["list"]], [["iter"]], [["head", 1]], [["collect", ["a"], None]], [["row", 0]],
@@ -1409,10 +1485,12 @@ def _rand_hcase(rng, malformed=False, with_pool=False):
     if not names and rng.random() < 0.7:
         names, rows = _rand_frame(rng, rng.sample("abcd", rng.choice([1, 2, 3])))
     typed = rng.random() < 0.3
-    frames = [_hframe(names, rows, gen=rng.random() < 0.6, typed=typed)]
+    u = rng.random()
+    frames = [_hframe(names, rows, gen=u < 0.5, tup=u >= 0.8, typed=typed)]          # 50 % generator, 30 % list, 20 % tuple
     if rng.random() < 0.35:
         _, rows2 = _rand_frame(rng, names)
-        frames.append(_hframe(names, rows2, gen=rng.random() < 0.5, typed=typed, share=0 if rng.random() < 0.8 else None))
+        u = rng.random()
+        frames.append(_hframe(names, rows2, gen=u < 0.4, tup=u >= 0.75, typed=typed, share=0 if rng.random() < 0.8 else None))
     case = {"frames": frames, "hsteps": []}
     if with_pool:
         n0 = len(rows)
